@@ -20,7 +20,7 @@ timeout 1800 /venv/bin/python "$SRC/demo$K.py" > "$DST/demo-clean.out" 2>&1; ech
 if git apply --check "$SRC/patch$K.diff" 2>>"$LOG"; then echo "applies=yes" >> "$LOG"; git apply "$SRC/patch$K.diff"; else echo "applies=no" >> "$LOG"; fi
 timeout 1800 /venv/bin/python "$SRC/demo$K.py" > "$DST/demo-patched.out" 2>&1; echo "demo_with_patch_exit=$?" >> "$LOG"
 if [ -z "$NOTESTS" ]; then
-  env -u FA_VERIF timeout 3000 /venv/bin/python -m pytest -q -p no:cacheprovider --timeout=900 -n 8 2>&1 | grep -E "^(FAILED|ERROR)|passed|failed" | tail -8 >> "$LOG"
+  env -u FA_VERIF timeout 3000 /venv/bin/python -m pytest -q -p no:cacheprovider --timeout=900 -n 8 2>&1 | grep -E "^(FAILED|ERROR) |[0-9]+ passed" | tail -8 >> "$LOG"
   # test_fma_samples_fraction[float32] is order dependent on the unchanged tree (test_multiply_dekker leaks mpmath.mp.prec): rerun it alone
   if grep -q "^FAILED" "$LOG"; then
     for t in $(grep "^FAILED" "$LOG" | awk '{print $2}'); do
